@@ -205,6 +205,13 @@ def run_open_ref(case):
         params = b''.join(rc.opt_param(2, b''.join(enc[i:i + 2])) for i in range(0, len(enc), 2))
     else:
         params = b''.join(rc.opt_param(2, c) for c in enc)
+    pad_to = case.get('pad_to')
+    if pad_to and len(params) + 4 <= pad_to <= 255 and not any(c[0] == 'unk' and c[1] == 253 for c in caps):
+        # one more (unknown) capability in a parameter of its own, sized so that the Optional Parameters Length is exactly
+        # pad_to - the field's maximum is 255
+        filler = bytes(range(1, pad_to - len(params) - 4 + 1))
+        params += rc.opt_param(2, rc.cap(253, filler))
+        caps = list(caps) + [['unk', 253, filler.hex()]]
     if len(params) > 255:
         return None     # does not fit an OPEN: not a well-formed input
     body = rc.open_body(4, field, hold, bid, params)
@@ -213,7 +220,7 @@ def run_open_ref(case):
     try:
         got = Open().parse(body)
     except Exception as e:
-        return [('open-ref:parse-exception:%s:%s' % (exc_sig(e), _capkinds(caps)), repr(e))]
+        return [('open-ref:parse-exception:%s:%s' % (exc_sig(e), _culprit(caps, len(params))), repr(e))]
     if got is None:
         return [('open-ref:parse-returns-none:%s' % ('no-params' if not params else 'params'),
                  'Open.parse returned None for %s' % body.hex())]
@@ -225,6 +232,19 @@ def run_open_ref(case):
 
 def _capkinds(caps):
     return '+'.join(sorted(set(c[0] for c in caps)))
+
+
+def _culprit(caps, optlen):
+    """root-cause feature of a decoding failure: the one capability kind that fails on its own, else the length class"""
+    for c in caps:
+        try:
+            body = rc.open_body(4, 65001, 180, 1, rc.opt_param(2, encode_cap(c)))
+            Open().parse(body)
+        except Exception:      # noqa
+            return 'kind=' + c[0]
+    if optlen >= 250:
+        return 'optlen=%d' % optlen
+    return 'combination-of-%d' % min(len(caps), 3)
 
 
 afi_safi_known = st.sampled_from(sorted(ADDPATH_FAMILIES)).map(list)
@@ -276,6 +296,7 @@ def open_ref_case(draw):
     return {'f': 'open-ref', 'asn': asn, 'hold': draw(vs.hold_time),
             'id': draw(st.integers(1, 2 ** 32 - 1)), 'caps': out, 'as4': as4,
             'as4_pos': draw(st.integers(0, 12)),
+            'pad_to': draw(st.sampled_from([None, None, None, 128, 253, 254, 255])),
             'pack': draw(st.sampled_from(['one', 'all', 'pairs']))}
 
 
